@@ -41,4 +41,5 @@ RULE += ' 8% of the cases use plain integer weights (+-1, +-2, 0).'
 RULE += ' Every returned target portfolio is overwritten by the caller (quantity 250 everywhere) before the sizer is used again; in a third of the percentage-fee cases the fee model object gets its rates only after the broker was built with it.'
 RULE += ' Round 11: as C10 (gap after later use; partitioned CSV sources).'
 RULE += ' Round 12: as C10. Target quantities beyond 2**53 are not judged (see DESIGN 8.3).'
+RULE += ' Round 13: as C10 (sizes after refused calls judged against the budget).'
 ASSUMPTIONS = ['weights whose gross exposure is within 1e-8 of zero are used unscaled, as the code documents']
